@@ -338,7 +338,7 @@ func runWorker(bin string, j job, timeout time.Duration, memLimitKB int64) worke
 	os.WriteFile(jf, b, 0644)
 	shell := fmt.Sprintf("ulimit -v %d 2>/dev/null; exec %q -test.run '^TestWorker$' -test.timeout 0 -test.count 1", memLimitKB, bin)
 	cmd := exec.Command("/bin/bash", "-c", shell)
-	cmd.Env = append(os.Environ(), "QSIM_JOB="+jf, "GOMAXPROCS="+gomaxprocs(), "GOTRACEBACK=single")
+	cmd.Env = append(os.Environ(), "QSIM_JOB="+jf, "GOMAXPROCS="+gomaxprocs(), "GOTRACEBACK=single", "GOMEMLIMIT=2GiB")
 	cmd.Dir = dir
 	cmd.SysProcAttr = &syscall.SysProcAttr{Setpgid: true}
 	stdout, _ := cmd.StdoutPipe()
@@ -394,9 +394,16 @@ func runWorker(bin string, j job, timeout time.Duration, memLimitKB int64) worke
 	}
 	res.exitErr = cmd.Wait()
 	if res.exitErr != nil || res.sum == nil {
-		res.output += strings.Join(tail, "\n") + "\n" + lastBytes(stderr.String(), 6000)
+		res.output += strings.Join(tail, "\n") + "\n" + firstBytes(stderr.String(), 6000) + "\n...\n" + lastBytes(stderr.String(), 2000)
 	}
 	return res
+}
+
+func firstBytes(s string, n int) string {
+	if len(s) > n {
+		return s[:n]
+	}
+	return s
 }
 
 func lastBytes(s string, n int) string {
@@ -435,7 +442,7 @@ var tiers = map[string]map[string]tierSpec{
 		"C14":     {4000, 250, 150},
 		"C16":     {4000, 250, 150},
 		"C06":     {4800, 300, 150},
-		"C12":     {3200, 200, 150},
+		"C12":     {1280, 8, 150},
 	},
 	"thorough": {
 		"default": {200000, 400, 1200},
@@ -445,6 +452,7 @@ var tiers = map[string]map[string]tierSpec{
 		"C10":     {600000, 1000, 1200},
 		"C17":     {2000000, 4000, 1200},
 		"C11":     {384000, 640, 1500},
+		"C12":     {60000, 8, 1500},
 	},
 }
 
@@ -574,6 +582,13 @@ func cmdCheck(args []string) int {
 	var trouble []string
 	var died []workerResult
 	var diedJobs []job
+	type fatalRun struct {
+		run int
+		out string
+	}
+	var fatals []fatalRun
+	deaths := map[int]int{}
+	recycled := 0
 	stop := false
 	next := 0
 	skipped := 0
@@ -608,8 +623,40 @@ func cmdCheck(args []string) int {
 				}
 				if r.sum == nil {
 					if r.harnessEr == "" {
-						died = append(died, r)
-						diedJobs = append(diedJobs, j)
+						if r.timedOut || r.lastBegin < 0 {
+							died = append(died, r)
+							diedJobs = append(diedJobs, j)
+						} else {
+							// the worker died while executing run lastBegin: try
+							// that run alone in a fresh process, then carry on
+							// with the rest of the chunk
+							mu.Unlock()
+							oj := job{Mode: "one", Prop: prop, Tier: *tier, Seed: seed, From: r.lastBegin}
+							again := runWorker(bin, oj, 600*time.Second, 6<<20)
+							mu.Lock()
+							// the dead worker's summary is lost: the runs it had
+							// completed are executed again (same results)
+							if r.lastBegin > c.from {
+								chunks = append(chunks, chunk{c.from, r.lastBegin})
+							}
+							if again.exitErr != nil && !again.got && !again.timedOut {
+								fatals = append(fatals, fatalRun{r.lastBegin, again.output})
+								if r.lastBegin+1 < c.to {
+									chunks = append(chunks, chunk{r.lastBegin + 1, c.to})
+								}
+							} else {
+								// it only died with what earlier runs had left
+								// behind in that process: redo from there
+								recycled++
+								if deaths[r.lastBegin] < 2 {
+									deaths[r.lastBegin]++
+									chunks = append(chunks, chunk{r.lastBegin, c.to})
+								} else {
+									died = append(died, r)
+									diedJobs = append(diedJobs, j)
+								}
+							}
+						}
 					}
 				} else {
 					merge(&total, r.sum, fps, efps)
@@ -624,43 +671,49 @@ func cmdCheck(args []string) int {
 	wg.Wait()
 
 	exit := 0
-	// a worker that died: replay the run it was executing in a fresh process
+	// workers that could not be accounted for
 	for i, r := range died {
 		j := diedJobs[i]
-		if r.timedOut {
+		switch {
+		case r.timedOut:
 			trouble = append(trouble, fmt.Sprintf("worker for runs [%d,%d) hit the watchdog (last run started: %d)", j.From, j.Runs, r.lastBegin))
-			continue
-		}
-		if r.lastBegin < 0 {
+		case r.lastBegin < 0:
 			trouble = append(trouble, fmt.Sprintf("worker for runs [%d,%d) died before its first run: %v\n%s", j.From, j.Runs, r.exitErr, r.output))
+		default:
+			trouble = append(trouble, fmt.Sprintf("worker for runs [%d,%d) keeps dying at run %d although the run survives on its own: %v\n%s", j.From, j.Runs, r.lastBegin, r.exitErr, lastBytes(r.output, 3000)))
+		}
+	}
+	// runs that kill the process on their own, twice: fatal runtime errors
+	sort.Slice(fatals, func(i, j int) bool { return fatals[i].run < fatals[j].run })
+	seenFatal := map[string]bool{}
+	for _, f := range fatals {
+		class := prop + "/fatal/" + fatalClass(f.out)
+		isKnown := false
+		for _, k := range known {
+			if k == class {
+				isKnown = true
+			}
+		}
+		if isKnown {
+			total.Known[class]++
+			total.KnownDetail[class] = "the simulated process dies with a fatal runtime error"
 			continue
 		}
-		oj := job{Mode: "one", Prop: prop, Tier: *tier, Seed: seed, From: r.lastBegin}
-		again := runWorker(bin, oj, 600*time.Second, 6<<20)
-		if again.exitErr != nil && !again.got && !again.timedOut {
-			class := prop + "/fatal/worker-process-died"
-			isKnown := false
-			for _, k := range known {
-				if k == class {
-					isKnown = true
-				}
-			}
-			file := filepath.Join(replayDir, fmt.Sprintf("%s-seed%d-run%d-fatal.json", prop, seed, r.lastBegin))
-			b, _ := json.MarshalIndent(map[string]interface{}{"prop": prop, "seed": seed, "run": r.lastBegin, "regen": true, "tier": *tier, "expect": class,
-				"detail": lastBytes(again.output, 3000)}, "", " ")
-			os.WriteFile(file, b, 0644)
-			if isKnown {
-				total.Known[class]++
-				total.KnownDetail[class] = "the simulated process dies with a fatal runtime error"
-			} else {
-				total.Violations = append(total.Violations, violationReport{Class: class, Detail: lastBytes(again.output, 1500), Run: r.lastBegin, File: file})
-				fmt.Printf("VIOLATION property=%s replay=%s\n", prop, file)
-				fmt.Printf("  class=%s\n  %s\n", class, strings.ReplaceAll(lastBytes(again.output, 1500), "\n", "\n  "))
-				exit = 1
-			}
-		} else {
-			trouble = append(trouble, fmt.Sprintf("worker for runs [%d,%d) died at run %d but the run does not die again on its own: %v\n%s", j.From, j.Runs, r.lastBegin, r.exitErr, lastBytes(r.output, 3000)))
+		if seenFatal[class] {
+			continue
 		}
+		seenFatal[class] = true
+		file := filepath.Join(replayDir, fmt.Sprintf("%s-seed%d-run%d-fatal.json", prop, seed, f.run))
+		b, _ := json.MarshalIndent(map[string]interface{}{"prop": prop, "seed": seed, "run": f.run, "regen": true, "tier": *tier, "expect": class,
+			"detail": firstBytes(f.out, 3000)}, "", " ")
+		os.WriteFile(file, b, 0644)
+		total.Violations = append(total.Violations, violationReport{Class: class, Detail: firstBytes(f.out, 1500), Run: f.run, File: file})
+		fmt.Printf("VIOLATION property=%s replay=%s\n", prop, file)
+		fmt.Printf("  class=%s\n  %s\n", class, strings.ReplaceAll(firstBytes(f.out, 1500), "\n", "\n  "))
+		exit = 1
+	}
+	if recycled > 0 {
+		fmt.Printf("qsim: %d worker processes died of what earlier runs had left behind (not of the run itself) and were replaced\n", recycled)
 	}
 
 	// confirm each violation by replaying its file in a fresh process
@@ -739,6 +792,37 @@ func cmdCheck(args []string) int {
 		return 2
 	}
 	return 0
+}
+
+// fatalClass names a fatal runtime error by its message and the innermost
+// function of the code under test on the dying goroutine's stack.
+func fatalClass(out string) string {
+	msg, where := "worker-process-died", ""
+	lines := strings.Split(out, "\n")
+	for i, l := range lines {
+		if strings.HasPrefix(l, "fatal error: ") && msg == "worker-process-died" {
+			msg = strings.ReplaceAll(strings.TrimPrefix(l, "fatal error: "), " ", "-")
+			for _, m := range lines[i:] {
+				if strings.HasPrefix(m, "github.com/lugu/qiloop/") {
+					where = strings.TrimPrefix(m, "github.com/lugu/qiloop/")
+					if j := strings.IndexByte(where, '('); j > 0 && !strings.HasPrefix(where[j:], "(*") {
+						where = where[:j]
+					} else if j := strings.LastIndexByte(where, '('); j > 0 {
+						where = where[:j]
+					}
+					break
+				}
+				if strings.HasPrefix(m, "goroutine ") && m != lines[i] && where == "" && strings.Contains(m, "[") && !strings.Contains(m, "running") {
+					break
+				}
+			}
+			break
+		}
+	}
+	if where != "" {
+		return msg + "@" + where
+	}
+	return msg
 }
 
 func firstJSON(s string) string {
